@@ -13,7 +13,7 @@
    blocks; after a violation it follows what the code did).
 
    Events (field sets are fixed; c = client "c1"/"c2", p = partition number, mid = member id)
-     reset        initial (-1 newest / -2 oldest), loglen, logstart, auto ("fast"|"slow"|"off"),
+     reset        initial (-1 newest / -2 oldest), loglen, logstart, auto ("fast"|"slow"|"off"), oretry (Offsets.Retry.Max),
                   hbretry (Metadata.Retry.Max used by the heartbeat loop), committed <<off..>>
      consume_call c            consume_ret c, err          cancel c
      close_call c              close_ret c, err
@@ -68,6 +68,9 @@ ObsInit ==
    cur |-> [c \in OC |-> NoPair],            \* identity the coordinator issued last
    ids |-> [c \in OC |-> {}],                \* member ids ever issued to the client
    fenced |-> [c \in OC |-> FALSE],          \* last join/sync answer was UNKNOWN_MEMBER_ID
+   oretry |-> 3,                             \* Consumer.Offsets.Retry.Max: the final commit has oretry + 1 attempts
+   nfin |-> [c \in OC |-> 0],                \* commit requests seen after Cleanup in this call
+   nconn |-> [c \in OC |-> 0],               \* requests of this call that were dropped (an attempt can be lost unseen)
    leaderless |-> -1,                        \* partition the metadata lists without a leader (its claim cannot start)
    cdown |-> FALSE,                          \* the coordinator was made unreachable (no commit can arrive)
    hung |-> FALSE,                           \* the watchdog fired: the scenario is torn down by force afterwards
@@ -86,13 +89,14 @@ HandlerWhileOut(o, c) == W(o.ph[c] = "out", "consume_returns_last")
 OReset(o, e) ==
   [ObsInit EXCEPT !.initial = e.initial, !.loglen = e.loglen, !.logstart = e.logstart,
                   !.auto = e.auto, !.hbretry = e.hbretry,
+                  !.oretry = IF "oretry" \in DOMAIN e THEN e.oretry ELSE 3,
                   !.leaderless = IF "leaderless" \in DOMAIN e THEN e.leaderless ELSE -1,
                   !.store = [p \in OP |-> IF p + 1 \in DOMAIN e.committed THEN e.committed[p + 1] ELSE -1]]
 
 OConsumeCall(o, e) ==
   LET c == e.c IN
   [o EXCEPT !.ph[c] = "called", !.claims[c] = {}, !.started[c] = {}, !.returned[c] = {},
-            !.sessEnd[c] = FALSE, !.hbconn[c] = 0,
+            !.sessEnd[c] = FALSE, !.hbconn[c] = 0, !.nfin[c] = 0, !.nconn[c] = 0,
             !.nextoff[c] = [p \in OP |-> -1], !.first[c] = [p \in OP |-> FALSE],
             !.marks[c] = [p \in OP |-> {}], !.sent[c] = [p \in OP |-> {}], !.acc[c] = [p \in OP |-> {}],
             !.bad = {}]
@@ -138,11 +142,16 @@ OCleanup(o, e) ==
                     \cup W(o.ph[c] = "setup" /\ o.claims[c] \ o.started[c] # {} /\ ~Ending(o, c),
                            "exactly_one_claim_unless_ending")]
 
-\* with auto-commit on, the highest mark of every claimed partition was carried by a commit
-\* request after Cleanup, or had already been stored by the coordinator
+\* with auto-commit on: the coordinator stored the highest mark of every claimed partition (before or after Cleanup), or
+\* the final commit used its whole budget of Consumer.Offsets.Retry.Max + 1 attempts after Cleanup without being accepted
+\* (requests dropped with the connection count for the budget: an attempt can then be lost before it is seen);
+\* with the ticker out of the way (auto "slow") there are never more than that many attempts
 FinalCommitOk(o, c) ==
-  \A p \in o.claims[c] :
-     o.marks[c][p] # {} => MaxOf(o.marks[c][p]) \in (o.sent[c][p] \cup o.acc[c][p])
+  /\ \A p \in o.claims[c] :
+       o.marks[c][p] # {} =>
+          \/ MaxOf(o.marks[c][p]) \in o.acc[c][p]
+          \/ o.nfin[c] + o.nconn[c] >= o.oretry + 1
+  /\ o.auto = "slow" => o.nfin[c] <= o.oretry + 1
 
 OConsumeRet(o, e) ==
   LET c == e.c IN
@@ -171,7 +180,7 @@ OSyncResp(o, e) ==
 OHb(o, e) ==
   LET c == e.c
       lost == IF e.err = "conn" THEN o.hbconn[c] + 1 ELSE 0 IN
-  [o EXCEPT !.hbconn[c] = lost,
+  [o EXCEPT !.hbconn[c] = lost, !.nconn[c] = IF e.err = "conn" THEN @ + 1 ELSE @,
             !.sessEnd[c] = @ \/ (e.err \notin {"ok", "conn"}) \/ lost > o.hbretry,
             !.bad = W(<<e.mid, e.gen>> # o.cur[c], "requests_carry_issued_identity")
                     \cup W(o.ph[c] = "out", "consume_returns_last")]
@@ -180,7 +189,9 @@ OCommit(o, e) ==
   LET c == e.c
       bl == ToSetO(e.blocks)
       offs(p) == {b[2] : b \in {x \in bl : x[1] = p}} IN
-  [o EXCEPT !.sent[c] = IF o.ph[c] = "cleanup" THEN [p \in OP |-> o.sent[c][p] \cup offs(p)] ELSE @,
+  [o EXCEPT !.nfin[c] = IF o.ph[c] = "cleanup" THEN @ + 1 ELSE @,
+            !.nconn[c] = IF e.err = "conn" THEN @ + 1 ELSE @,
+            !.sent[c] = IF o.ph[c] = "cleanup" THEN [p \in OP |-> o.sent[c][p] \cup offs(p)] ELSE @,
             !.acc[c] = IF e.applied THEN [p \in OP |-> o.acc[c][p] \cup offs(p)] ELSE @,
             !.store = IF e.applied THEN [p \in OP |-> IF offs(p) # {} THEN MaxOf(offs(p)) ELSE o.store[p]] ELSE @,
             !.bad = W(<<e.mid, e.gen>> # o.cur[c], "requests_carry_issued_identity")
